@@ -11,12 +11,27 @@
 //   mode 0: n[1] = dimensions (2|3), n[2] = grid side, n[3] = salt (query sampling), n[4..] = packed operations
 //   mode 1: n[1] = k, n[2] = value mode (0: value = insertion index, 1: all values equal), n[3] = battery after each erase (enum Battery),
 //           n[4..4+k) = cells of the 3x3 grid (0..8) in insertion order; stands for ALL k! erase orders
+//   mode 2: query-interleaved history: n[1] = dimensions, n[2] = coordinate range (side, 1..97), n[3] = salt,
+//           n[4] = coordinate type (0: int64_t, 1: double, 2: uint64_t), n[5], n[6] = coordinate map (see PointOfDouble / PointOfU64),
+//           n[7] = query policy: bits 0-1 what is looked up FIRST after every mutation (0: nothing, 1: the most recently probed
+//           point, 2: the last three probed points newest first, 3: oldest first), bits 2-3 what else is asked after a mutation
+//           (0: size(), 1: size() + iteration, 2: the light battery in an order rotated by the salt, 3: that battery after every
+//           8th mutation); n[8..] = packed operations incl. PROBE / PROBE_LIVE / BOX / BATTERY; the battery always runs at the end
+//   mode 3: n[1] = k, n[2] = probed cell of the 5x5 ring grid (0..24 -> (-1..3, -1..3)), n[3..3+k) = cells of the 3x3 grid in insertion
+//           order; stands for ALL single mutations (erase_advance of every non-empty subset of the entries, erase of each entry,
+//           insert at each of the 9 cells) between two lookups of the probed point
 // packed operation: code (1 digit) + 10 * a, with
 //   INSERT/ERASE/EMPLACE: a = (x+1) + 100 (y+1) + 10000 (z+1) + 10^6 value
 //   ERASE_LIVE:           a = r            erase the (r mod live)-th model entry
 //   SWEEP:                a = t + 10 r     erase_advance every entry with mix(r, entry) % 8 < t while iterating
 //   INSERT_DUP:           a = value + 10 r insert at the point of the (r mod live)-th model entry
+//   PROBE (mode 2):       a as INSERT      at()/exists() of that point, now
+//   PROBE_LIVE (mode 2):  a = r            at()/exists() of the point of the (r mod live)-th model entry
+//   BOX (mode 2):         a = r            within()/exists(low,high) of a box derived from r
+//   BATTERY (mode 2):     a = r            the battery, live points visited in an order rotated by r
 #pragma once
+
+#include <math.h>
 
 #include <array>
 #include <string>
@@ -32,8 +47,8 @@ namespace c13 {
 
 using namespace verif;
 
-enum Code : unsigned { INSERT = 0, ERASE = 1, ERASE_LIVE = 2, SWEEP = 3, INSERT_DUP = 4, EMPLACE = 5, NUM_CODES = 6 };
-static const char* kCodeNames[NUM_CODES] = {"insert", "erase", "erase_live", "sweep", "insert_dup", "emplace"};
+enum Code : unsigned { INSERT = 0, ERASE = 1, ERASE_LIVE = 2, SWEEP = 3, INSERT_DUP = 4, EMPLACE = 5, PROBE = 6, PROBE_LIVE = 7, BOX = 8, BATTERY = 9, NUM_CODES = 10 };
+static const char* kCodeNames[NUM_CODES] = {"insert", "erase", "erase_live", "sweep", "insert_dup", "emplace", "probe", "probe_live", "box", "battery"};
 
 inline uint64_t pack_pt(unsigned code, int64_t x, int64_t y, int64_t z, uint64_t value) {
   return code + 10ULL * (static_cast<uint64_t>(x + 1) + 100ULL * static_cast<uint64_t>(y + 1) + 10000ULL * static_cast<uint64_t>(z + 1) + 1000000ULL * value);
@@ -54,12 +69,16 @@ inline Step unpack(uint64_t w) {
     case INSERT:
     case ERASE:
     case EMPLACE:
+    case PROBE:
       s.c[0] = static_cast<int64_t>(a % 100) - 1;
       s.c[1] = static_cast<int64_t>((a / 100) % 100) - 1;
       s.c[2] = static_cast<int64_t>((a / 10000) % 100) - 1;
       s.value = a / 1000000;
       break;
     case ERASE_LIVE:
+    case PROBE_LIVE:
+    case BOX:
+    case BATTERY:
       s.r = a;
       break;
     case SWEEP:
@@ -79,7 +98,11 @@ inline std::string describe(uint64_t w) {
     case INSERT:
     case ERASE:
     case EMPLACE: return cat(kCodeNames[s.code], "((", s.c[0], ",", s.c[1], ",", s.c[2], "),", s.value, ")");
-    case ERASE_LIVE: return cat("erase_live(", s.r, ")");
+    case PROBE: return cat("probe((", s.c[0], ",", s.c[1], ",", s.c[2], "))");
+    case ERASE_LIVE:
+    case PROBE_LIVE:
+    case BOX:
+    case BATTERY: return cat(kCodeNames[s.code], "(", s.r, ")");
     case SWEEP: return cat("sweep(threshold=", s.t, ",salt=", s.r, ")");
     default: return cat("insert_dup(", s.r, ",", s.value, ")");
   }
@@ -105,17 +128,85 @@ struct Entry {
   bool operator==(const Entry& o) const { return c == o.c && v == o.v; }
 };
 
+// The model works on integer grid coordinates; a point-type trait maps a grid coordinate to the coordinate the tree
+// sees (strictly increasing, so order, ties and half-open boxes are preserved) and back.
 template <size_t D>
 struct PointOf;
 template <>
 struct PointOf<2> {
   typedef phosg::Vector2<int64_t> T;
   static T make(const std::array<int64_t, 2>& c) { return T(c[0], c[1]); }
+  static int64_t back(int64_t v) { return v; }
+  static const char* name() { return ""; }
 };
 template <>
 struct PointOf<3> {
   typedef phosg::Vector3<int64_t> T;
   static T make(const std::array<int64_t, 3>& c) { return T(c[0], c[1], c[2]); }
+  static int64_t back(int64_t v) { return v; }
+  static const char* name() { return ""; }
+};
+
+// coordinate map of the current case (set by the subcheck before the history is replayed; part of the case)
+struct CoordMap {
+  uint64_t a = 0;
+  int64_t b = 0;
+};
+inline CoordMap& coord_map() {
+  static CoordMap m;
+  return m;
+}
+
+// double coordinates: grid g -> (g - b) * scale[a]. Scales below 1 put several grid lines inside one integer part
+// (0.25, 0.5, 0.75, 1.0 ...), a shift b > 0 puts part of the grid below zero.
+static const double kScales[] = {0.25, 0.5, 0.125, 0.75, 0.1, 1.0 / 3, 1.0, 2.5};
+struct DoubleMap {
+  static double scale() { return kScales[coord_map().a % (sizeof(kScales) / sizeof(kScales[0]))]; }
+  static double fwd(int64_t g) { return static_cast<double>(g - coord_map().b) * scale(); }
+  static int64_t back(double v) {
+    int64_t g = llround(v / scale()) + coord_map().b;
+    if (!(fwd(g) == v)) VFAIL("coordinate-corrupted", "the tree handed out the coordinate ", v, " which no inserted point has");
+    return g;
+  }
+  static std::string describe() { return cat("grid coordinate g stands for the double (g - ", coord_map().b, ") * ", scale()); }
+};
+template <size_t D>
+struct PointOfDouble;
+template <>
+struct PointOfDouble<2> : DoubleMap {
+  typedef phosg::Vector2<double> T;
+  static T make(const std::array<int64_t, 2>& c) { return T(fwd(c[0]), fwd(c[1])); }
+  static const char* name() { return "double"; }
+};
+template <>
+struct PointOfDouble<3> : DoubleMap {
+  typedef phosg::Vector3<double> T;
+  static T make(const std::array<int64_t, 3>& c) { return T(fwd(c[0]), fwd(c[1]), fwd(c[2])); }
+  static const char* name() { return "double"; }
+};
+
+// uint64_t coordinates: grid g -> base + g with base = 2^63 - b (a = 0: the grid straddles 2^63), 1 (a = 1: g = -1 is 0)
+// or 2^64 - 200 (a = 2: just below the top)
+struct PointOfU64 {
+  typedef phosg::Vector2<uint64_t> T;
+  static uint64_t base() {
+    switch (coord_map().a % 3) {
+      case 0: return (1ULL << 63) - static_cast<uint64_t>(coord_map().b);
+      case 1: return 1;
+      default: return ~0ULL - 199;
+    }
+  }
+  static uint64_t fwd(int64_t g) { return base() + static_cast<uint64_t>(g); }
+  static int64_t back(uint64_t v) { return static_cast<int64_t>(v - base()); }
+  static T make(const std::array<int64_t, 2>& c) { return T(fwd(c[0]), fwd(c[1])); }
+  static const char* name() { return "uint64"; }
+  static std::string describe() { return cat("grid coordinate g stands for the uint64_t ", base(), " + g"); }
+};
+
+// query policy of a mode-2 history (n[7])
+struct Policy {
+  unsigned first = 0; // bits 0-1
+  unsigned rest = 0; // bits 2-3
 };
 
 struct Stats {
@@ -125,17 +216,17 @@ struct Stats {
 
 enum Battery { LIGHT = 0, FULL = 1, LOOKUPS = 2, FULL_ABSENT = 3, MEDIUM = 4 };
 
-template <size_t D>
+template <size_t D, typename P = PointOf<D>>
 struct KD {
-  typedef typename PointOf<D>::T PT;
+  typedef typename P::T PT;
   typedef phosg::KDTree<PT, int64_t> Tree;
   typedef Entry<D> E;
   typedef std::vector<E> Model;
 
-  static PT pt(const std::array<int64_t, D>& c) { return PointOf<D>::make(c); }
+  static PT pt(const std::array<int64_t, D>& c) { return P::make(c); }
   static E from(const PT& p, int64_t v) {
     E e;
-    for (size_t d = 0; d < D; d++) e.c[d] = p.at(d);
+    for (size_t d = 0; d < D; d++) e.c[d] = P::back(p.at(d));
     e.v = v;
     return e;
   }
@@ -231,14 +322,18 @@ struct KD {
   }
 
   // battery: what is asked after a mutation
-  static void check_state(const Tree& t, const Model& m, int64_t side, Battery level, uint64_t salt, const Where& w) {
+  // order = 0: the live points are visited in sorted order; otherwise starting at the (order/2 mod n)-th, downwards if order is odd
+  static void check_state(const Tree& t, const Model& m, int64_t side, Battery level, uint64_t salt, const Where& w, uint64_t order = 0) {
     check_size_and_iteration(t, m, w);
     // every distinct live point: exact lookup + the single-cell box around it (two-sided descent must find it too)
     std::vector<std::array<int64_t, D>> live;
     for (const E& e : m) live.push_back(e.c);
     std::sort(live.begin(), live.end());
     live.erase(std::unique(live.begin(), live.end()), live.end());
-    for (const auto& c : live) {
+    for (size_t k = 0; k < live.size(); k++) {
+      size_t at = k;
+      if (order) at = (order & 1) ? (live.size() - 1 - ((order / 2 + k) % live.size())) : ((order / 2 + k) % live.size());
+      const auto& c = live[at];
       check_point(t, m, c, w);
       if (level != LOOKUPS) {
         auto hi = c;
@@ -336,18 +431,51 @@ struct KD {
 
   // ---------------------------------------------------------------- one history
 
-  static void replay(const uint64_t* ops, size_t n, int64_t side, uint64_t salt, Stats& st) {
+  // q == nullptr: mode 0 (the battery after every mutation); otherwise mode 2: the lookups between mutations are the
+  // generated ones (PROBE / PROBE_LIVE / BOX / BATTERY) plus what the policy asks after a mutation
+  static void replay(const uint64_t* ops, size_t n, int64_t side, uint64_t salt, Stats& st, const Policy* q = nullptr) {
     alloc_balance::Scope heap;
     {
       Tree t;
       Model m;
       Battery level = (D == 2 && side <= 4) ? FULL : LIGHT;
-      check_state(t, m, side, level, salt, Where{ops, n, 0, "construction"});
+      if (!q) check_state(t, m, side, level, salt, Where{ops, n, 0, "construction"});
+      std::vector<std::array<int64_t, D>> probed; // points looked up so far, most recent last
+      auto probe = [&](const std::array<int64_t, D>& c, const Where& w) {
+        check_point(t, m, c, w);
+        probed.erase(std::remove(probed.begin(), probed.end(), c), probed.end());
+        probed.push_back(c);
+        if (probed.size() > 3) probed.erase(probed.begin());
+      };
       for (size_t i = 0; i < n; i++) {
         Step s = unpack(ops[i]);
         Where here{ops, n, i, nullptr};
         std::array<int64_t, D> c;
         for (size_t d = 0; d < D; d++) c[d] = s.c[d];
+        if (s.code >= PROBE) {
+          if (!q) throw std::logic_error("C13: query operations belong to mode-2 histories");
+          if (s.code == PROBE) {
+            probe(c, here);
+          } else if (s.code == PROBE_LIVE) {
+            if (!m.empty()) c = m[s.r % m.size()].c;
+            else c.fill(0);
+            probe(c, here);
+          } else if (s.code == BOX) {
+            uint64_t h = mix(s.r, 0xB0C5);
+            std::array<int64_t, D> lo, hi;
+            for (size_t d = 0; d < D; d++) {
+              h = mix(h, d);
+              int64_t a = static_cast<int64_t>(h % (side + 2)) - 1, b = static_cast<int64_t>((h >> 20) % (side + 2)) - 1;
+              if (a > b && (s.r % 8)) std::swap(a, b); // one in eight may be inverted (empty)
+              lo[d] = a;
+              hi[d] = b + 1;
+            }
+            check_box(t, m, lo, hi, here);
+          } else {
+            check_state(t, m, side, level, salt, here, 1 + s.r);
+          }
+          continue;
+        }
         switch (s.code) {
           case INSERT_DUP:
             if (!m.empty()) c = m[s.r % m.size()].c;
@@ -436,11 +564,26 @@ struct KD {
             throw std::logic_error("C13: unknown operation");
         }
         st.mutations++;
+        if (q) {
+          // first the points that were looked up before the mutation (in the order the policy says), then the rest
+          if (q->first == 1 && !probed.empty()) {
+            check_point(t, m, probed.back(), here);
+          } else if (q->first == 2) {
+            for (size_t k = probed.size(); k-- > 0;) check_point(t, m, probed[k], here);
+          } else if (q->first == 3) {
+            for (size_t k = 0; k < probed.size(); k++) check_point(t, m, probed[k], here);
+          }
+          if (q->rest == 0) VCHECK(t.size() == m.size(), "size", "size() is ", t.size(), " model holds ", m.size(), " entries after ", here);
+          else if (q->rest == 1) check_size_and_iteration(t, m, here);
+          else if (q->rest == 2 || (st.mutations % 8) == 0) check_state(t, m, side, LIGHT, salt, here, 1 + mix(salt, i));
+          continue;
+        }
         Battery lv = level;
         if (lv == LIGHT && (i + 1 == n || (i % 16) == 15) && side <= 6) lv = (D == 2) ? FULL : LIGHT;
         if (lv == FULL && i + 1 == n) lv = FULL_ABSENT;
         check_state(t, m, side, lv, salt, here);
       }
+      if (q) check_state(t, m, side, level == FULL ? FULL_ABSENT : LIGHT, salt, Where{ops, n, n, "at the end"}, 1 + salt);
     } // the tree is destroyed here, in whatever state the history left it
     VCHECK(!heap.leaked(), "leak", heap.excess(), " heap block(s) allocated during the history are still live after the tree was destroyed and LeakSanitizer reports a leak");
   }
@@ -518,6 +661,95 @@ inline uint64_t run_exhaustive_block(const std::vector<uint64_t>& cells, bool eq
   } catch (const Fail&) {
     if (failed_order) *failed_order = order;
     throw;
+  }
+  return count;
+}
+
+// mode 3: lookup of one point, ONE mutation, the same lookup first, then the cheap battery - for every mutation of the
+// tree built from `cells`: erase_advance of every non-empty subset of the entries while iterating, erase of each entry,
+// insert at each cell. Returns the number of histories executed.
+inline uint64_t run_probe_block(const std::vector<uint64_t>& cells, uint64_t probe_cell, Stats& st) {
+  typedef KD<2> K;
+  size_t k = cells.size();
+  std::array<int64_t, 2> pc = {static_cast<int64_t>(probe_cell % 5) - 1, static_cast<int64_t>(probe_cell / 5) - 1};
+  std::vector<K::E> entries(k);
+  for (size_t i = 0; i < k; i++) {
+    entries[i].c = cell(cells[i]);
+    entries[i].v = static_cast<int64_t>(i);
+  }
+  uint64_t count = 0;
+  uint64_t subsets = (1ULL << k) - 1, total = subsets + k + 9;
+  std::string label;
+  label.reserve(256);
+  for (uint64_t mu = 0; mu < total; mu++) {
+    label.clear();
+    alloc_balance::Scope heap;
+    {
+      K::Tree t;
+      K::Model m;
+      for (size_t i = 0; i < k; i++) {
+        t.insert(K::pt(entries[i].c), entries[i].v);
+        m.push_back(entries[i]);
+      }
+      auto say = [&](const char* stage) {
+        label = cat(stage, ": insert ", K::show(entries), " then look up ", K::show(pc), ", then ");
+        if (mu < subsets) {
+          label += "erase_advance the entries with values {";
+          for (size_t i = 0; i < k; i++)
+            if ((mu + 1) >> i & 1) label += cat(i, " ");
+          label += "} while iterating";
+        } else if (mu < subsets + k) {
+          label += cat("erase entry ", mu - subsets);
+        } else {
+          label += cat("insert(", K::show(cell(mu - subsets - k)), ",", k, ")");
+        }
+        return Where{nullptr, 0, 0, label.c_str()};
+      };
+      try {
+        K::check_point(t, m, pc, Where{nullptr, 0, 0, "the insertions"});
+      } catch (const Fail&) {
+        say("before the mutation");
+        throw;
+      }
+      try {
+        if (mu < subsets) {
+          uint64_t sel = mu + 1;
+          size_t guard = 0;
+          for (auto it = t.begin(); it != t.end();) {
+            VCHECK(++guard <= k + 1, "sweep-overrun", "an erase_advance sweep visits more than the ", k, " entries of the tree");
+            if ((sel >> it->second) & 1) {
+              K::E cur = K::from(it->first, it->second);
+              size_t idx = std::find(m.begin(), m.end(), cur) - m.begin();
+              VCHECK(idx < m.size(), "sweep-erased", "the sweep met an entry the model does not hold");
+              if (m.size() >= 3 && K::shares_coordinate(m, idx)) st.nontrivial = true;
+              m.erase(m.begin() + idx);
+              t.erase_advance(it);
+            } else {
+              ++it;
+            }
+          }
+          for (const K::E& e : m) VCHECK(!((sel >> e.v) & 1), "sweep-erased", "the sweep did not reach a selected entry");
+        } else if (mu < subsets + k) {
+          const K::E& e = entries[mu - subsets];
+          VCHECK(t.erase(K::pt(e.c), e.v), "lookup-lost:erase", "erase returned false for a live entry");
+          m.erase(std::find(m.begin(), m.end(), e));
+        } else {
+          K::E e;
+          e.c = cell(mu - subsets - k);
+          e.v = static_cast<int64_t>(k);
+          t.insert(K::pt(e.c), e.v);
+          m.push_back(e);
+        }
+        Where w{nullptr, 0, 0, "the mutation"};
+        K::check_point(t, m, pc, w); // the same lookup first
+        K::check_state(t, m, 3, LOOKUPS, 0, w);
+      } catch (const Fail& f) {
+        Where w = say("lookup / one mutation / same lookup");
+        throw Fail{f.sig, cat(f.msg, " [", w.label, "]")};
+      }
+    }
+    VCHECK(!heap.leaked(), "leak", "heap blocks still live after the tree was destroyed and LeakSanitizer reports a leak");
+    count++;
   }
   return count;
 }
